@@ -303,6 +303,17 @@ func (c14) Gen(rng *simrt.Rand, tier string, run int) interface{} {
 		}
 		p.Clients = append(p.Clients, ops)
 	}
+	if p.System == "mem" && len(p.Clients) >= 1 && rng.Chance(1, 4) {
+		// a client that makes sure a directory exists although it already does
+		// (MemFs.Mkdir is idempotent and keeps the entries; DirFs would refuse)
+		c := rng.Intn(len(p.Clients))
+		at := rng.Intn(len(p.Clients[c]) + 1)
+		for at < len(p.Clients[c]) && needsHandle(p.Clients[c][at]) {
+			at++
+		}
+		op := FsOp{K: "mkdir", D: p.Dirs[rng.Intn(len(p.Dirs))]}
+		p.Clients[c] = append(append(append([]FsOp{}, p.Clients[c][:at]...), op), p.Clients[c][at:]...)
+	}
 	if len(p.Clients) >= 2 && rng.Chance(1, 5) {
 		// one descriptor shared by several clients (a common log file): their
 		// appends through it are operations like any other and none may be lost
